@@ -40,6 +40,7 @@ pub fn vx_min(a: usize, b: usize) -> (r: usize)
     if a <= b { a } else { b }
 }
 
+#[derive(Debug)]
 pub struct VxError;
 
 #[verifier::external_body]
@@ -57,9 +58,32 @@ pub proof fn axiom_vec_len_bound<T>(v: &Vec<T>)
 
 // T11: `#[derive(Clone)]` returns a value equal to the original
 #[verifier::external_body]
-pub fn vx_clone<T: Clone>(x: &T) -> (r: T)
+pub fn vx_clone<T>(x: &T) -> (r: T)
     ensures
         r == *x,
 {
-    x.clone()
+    unimplemented!()
+}
+
+// slice::chunks(k) (T4): number of chunks and the i-th chunk; `chunks(0)` panics, hence `k > 0`
+#[verifier::external_body]
+pub fn vx_num_chunks(len: usize, k: usize) -> (r: usize)
+    requires
+        k > 0,
+    ensures
+        r as int == (if len as int % k as int == 0 { len as int / k as int } else { len as int / k as int + 1 }),
+{
+    if len % k == 0 { len / k } else { len / k + 1 }
+}
+
+#[verifier::external_body]
+pub fn vx_chunk<T>(s: &[T], k: usize, i: usize) -> (r: &[T])
+    requires
+        k > 0,
+        i * k < s.len(),
+    ensures
+        r@ == s@.subrange(i * k, if (i + 1) * k <= s.len() { (i + 1) * k } else { s.len() as int }),
+{
+    let hi = if (i + 1) * k <= s.len() { (i + 1) * k } else { s.len() };
+    &s[i * k..hi]
 }
